@@ -120,8 +120,25 @@ fn get_prototype_member_path(member: &MemberExpr, parts: &mut Vec<Ident>) -> boo
             // argument has been evaluated, which would reorder the effects of the two
             return false;
         }
+    } else if !is_static_member(member) {
+        // `o[k()].concat.call(x)`: the names of the path end at a computed link that runs code
+        return false;
     }
     !parts.is_empty()
+}
+
+// a member expression whose evaluation does not run code of its own: names, `this`, literals and keys that are
+// names or literals
+fn is_static_member(member: &MemberExpr) -> bool {
+    let static_prop = match &member.prop {
+        MemberProp::Computed(computed) => computed.expr.is_ident() || computed.expr.is_lit(),
+        _ => true,
+    };
+    static_prop
+        && match &*member.obj {
+            Expr::Member(obj_member) => is_static_member(obj_member),
+            obj => obj.is_ident() || obj.is_this() || obj.is_lit(),
+        }
 }
 
 fn all_args_are_literal(args: &[ExprOrSpread]) -> bool {
